@@ -375,7 +375,7 @@ def main():
         projects = [json.load(open(a.replay))["input"]]
     else:
         nbase = 8 if a.tier == "quick" else 60
-        nsingle = 330 if a.tier == "quick" else 6000
+        nsingle = 400 if a.tier == "quick" else 6000
         base = [c10.gen_base_route(rng, i) for i in range(nbase)]
         singles = []
         for b in base:
@@ -410,7 +410,7 @@ def main():
     results = evaluate(projects, outs, layouts, "cases")
 
     ndiag = 0
-    codes, fails, classes_seen, corr_bad, text_bad, at_value_miss = {}, [], {}, [], [], []
+    codes, fails, classes_seen, corr_bad, text_bad, at_value_miss, unstable = {}, [], {}, [], [], [], []
     for k, (pr, out, rs) in enumerate(zip(projects, outs, results)):
         cls = classify_tree(out.get("tree") or [])
         for rec, o in zip(rs["od"], rs["oracle"]):
@@ -444,8 +444,13 @@ def main():
             classes_seen.setdefault("duplicate-sibling-entity", []).append((k, "tree"))
         if not text_same:
             text_bad.append(k)
-        if out.get("run_err") != out.get("error_text"):
+        # the command's own error (a second pipeline on the same sources): the same lines; their order inside a
+        # receiver and the "Did you mean" suggestion follow Go set iteration order and may differ between runs
+        norm = lambda t: sorted(re.sub(r"\. Did you mean '[^']*'\?", "", x) for x in (t or "").split("\n"))
+        if norm(out.get("run_err")) != norm(out.get("error_text")):
             text_bad.append(k)
+        elif out.get("run_err") != out.get("error_text"):
+            unstable.append(k)
         for r, ok in zip(pr["routes"], rs["corr"]):
             if not ok:
                 corr_bad.append((k, r["name"]))
@@ -503,7 +508,8 @@ def main():
         "input_distribution": {"projects": len(projects), "diagnostic_codes": codes, "layout": layouts_dist,
                                "recorded_classes_seen": {c: len(h) for c, h in classes_seen.items()},
                                "range_on_first_occurrence_not_on_the_value": at_value_miss[:5],
-                               "range_on_first_occurrence_count": len(at_value_miss)},
+                               "range_on_first_occurrence_count": len(at_value_miss),
+                               "projects_whose_error_text_differs_between_two_runs(order / Did-you-mean)": len(unstable)},
     })
     res.assumptions += [
         "columns are byte columns of the source line (go/token), 0-based; the covered text is read back from the file by bytes",
